@@ -31,7 +31,7 @@ Definition C16_partial_statement : Prop :=
   (forall (evalx : vexpr -> state -> res (value * state)) fuel obj (ops : list opitem) st,
      chain_class (items_of ops) = None ->
      chain Asp evalx fuel obj ops st =
-     py_ops evalx (apply_bin Asp fuel) (fun u v => apply_un Asp u st v) (truthy Asp st) obj (items_of ops) st)
+     py_ops evalx (apply_bin Asp fuel) (fun u v st0 => apply_un Asp u st0 v) (fun v st0 => truthy Asp st0 v) obj (items_of ops) st)
   /\ (forall (ops : list (item vexpr)), chain_class ops = None -> ops_safe ops = true)
   /\ (forall (ops : list (item vexpr)) (acc : tree vexpr value), ops_safe ops = true -> py_tree acc ops = asp_tree acc ops)
   /\ (forall o a b, int_safe o a b = true -> asp_int_op o a b = py_int_op o a b)
